@@ -232,15 +232,21 @@ int main()
     if(hxIs(l, "obs", 1)) { lvl = (int)hxNum(l, 1); printf("ok"); hxEndLine(); continue; }
     if(l.ntok < 2 || strlen(l.tok[0]) != 1 || l.tok[0][0] < '0' || l.tok[0][0] > '2') { bad(); continue; }
     int c = l.tok[0][0] - '0';
-    if((!strcmp(l.tok[1], "assign") || !strcmp(l.tok[1], "insall")) && l.ntok == 3)
+    if((!strcmp(l.tok[1], "assign") || !strcmp(l.tok[1], "insall") || !strcmp(l.tok[1], "copy")) && l.ntok == 3)
     {
       // copy / bulk insert between two different Maps (self-assignment is another area's business)
       if(strlen(l.tok[2]) != 1 || (l.tok[2][0] != '0' && l.tok[2][0] != '2') || c == 1 || l.tok[2][0] - '0' == c) { bad(); continue; }
-      M& dst = *m[c == 0 ? 0 : 1];
-      M& src = *m[c == 0 ? 1 : 0];
+      int di = c == 0 ? 0 : 1;
+      M& src = *m[1 - di];
       g_cmps = 0;
-      if(l.tok[1][0] == 'a') dst = src; else dst.insert(src);
-      observe(dst, "-", g_cmps);
+      if(l.tok[1][0] == 'a') *m[di] = src;
+      else if(l.tok[1][0] == 'c')
+      { // copy constructor
+        m[di]->~M();
+        m[di] = new(mstore[di]) M(src);
+      }
+      else m[di]->insert(src);
+      observe(*m[di], "-", g_cmps);
       continue;
     }
     bool done = c == 1 ? doOp(*x, l) : doOp(*m[c == 0 ? 0 : 1], l);
